@@ -52,6 +52,7 @@ def run():
         os.unlink(trace)
     pr = [c for c in cases.values() if c["kind"] == "pr"]
     lit = [c for c in cases.values() if c["kind"] == "lit"]
+    qlit = [c for c in cases.values() if c["kind"] == "qlit"]
     judged = [c for c in pr if "unjudged" not in v[c["id"]][1]]
     distinct = set(json.dumps(c["v"]) for c in judged if nontrivial(c["v"]))
     litclass = {}
@@ -62,7 +63,7 @@ def run():
     drift = sorted(set(v[i][1].strip('"') for i in cases if "drift" in v[i][1]))
     cov = {
         "evaluations": len(cases),
-        "distinct_nontrivial": len(distinct) + in_grammar,
+        "distinct_nontrivial": len(distinct) + in_grammar + sum(1 for c in qlit if "unjudged" not in v[c["id"]][1]),
         "rule": "distinct abstract original values among the judged print/read cases that are nested, or a string/char outside "
                 "plain printable ASCII, or a float, or an integer beyond 9 digits -- plus the literal spellings that NumLit "
                 "classifies as a numeric literal (int, uint, float, Inf, NaN, out of range); space = every character class "
@@ -71,12 +72,18 @@ def run():
                 "list/array tree and every array/hash tree of depth <= 2 with <= 2 children over palettes (quick: sampled two-child "
                 "depth-2 trees); hashes with string keys; seeded random values of depth <= 3; every spelling of <= 3 "
                 "(thorough: 4) symbols over an 18-symbol literal alphabet, a directed list of range / rounding / separator edges, "
-                "seeded spellings drawn from the grammar incl. exact decimal ties between neighbouring floats",
+                "seeded spellings drawn from the grammar incl. exact decimal ties between neighbouring floats; literals also directly inside "
+                "brackets and behind the reader prefixes % ^ ~ ~@; character and string literals written with every escape form "
+                "(all 256 \\xHH, \\uHHHH / \\UHHHHHHHH edges and seeded values, every escape letter, raw members of every class, seeded "
+                "token sequences); hashes with symbol keys named by arbitrary JSON member names; data the reader makes from its prefix shorthands",
         "print_read_cases": len(pr),
         "read_half_judged": sum(1 for c in judged if c["rdj"]),
         "save_source_judged": sum(1 for c in judged if c.get("svj")),
         "eval_half_judged": sum(1 for c in judged if c["evj"]),
-        "class_member_cases": len(cases) - len(pr) - len(lit),
+        "class_member_cases": len(cases) - len(pr) - len(lit) - len(qlit),
+        "quoted_literal_spellings": len(qlit),
+        "quoted_literal_spellings_judged": sum(1 for c in qlit if "unjudged" not in v[c["id"]][1]),
+        "literal_contexts": sorted(set(c.get("pre", "") for c in lit)),
         "literal_spellings": len(lit),
         "literal_spellings_by_class": litclass,
         "states": out.states, "transitions": out.transitions,
@@ -91,8 +98,13 @@ def run():
         "texts handed to the reader are the printed form between a leading space and a trailing newline (a text that does not end "
         "in white space loses its last atom and the lexer's look-back ring survives a reset: C13's statements)",
         "the read-back half is judged for values built from integers, floats, booleans, nil, characters, strings, symbols, lists, "
-        "arrays; the evaluated half for numbers, strings, booleans, nil, arrays, hashes (symbol and string keys); records, "
-        "dotted pairs and symbols the lexer's symbol pattern does not admit (e.g. foo-bar, made only by str2sym) are not generated",
+        "arrays; the evaluated half for numbers, strings, booleans, nil, arrays, hashes with symbol keys (of any name: the JSON decoder "
+        "makes a symbol of every member name) and string keys; hashes with integer or character keys are not JSON-like and not "
+        "generated; records, dotted pairs and, as VALUES, symbols the lexer's symbol pattern does not admit (e.g. foo-bar, made only "
+        "by str2sym) are not generated -- except the symbols the reader itself makes (quote, syntaxQuote, unquote, unquote-splicing)",
+        "characters are Unicode scalar values: character values outside them (made by arithmetic) and the literals \\ud800.. / above "
+        "\\U0010ffff denote no rune and are not judged, nor are malformed literals the reader happens to accept; \\x80..\\xff in a string "
+        "is a byte (judged only as part of valid UTF-8 elsewhere)",
         "-0.0 and 0.0 are one value; NaN must read back as NaN; strings that are not valid UTF-8 are recorded but not judged",
         "a float literal must give the float64 nearest to the exact decimal value NumLit computes (ties to even); the rounding "
         "interval of the float the reader returned is computed with math/big in the harness (trusted); a literal beyond the "
